@@ -253,6 +253,27 @@ int main(int argc, char **argv) {
         s = q + "M.topk2 :";
         for (auto &kv : tm) s += " " + std::to_string(kv.first) + "=" + std::to_string(kv.second);
         line(s);
+        {
+          // k larger than the number of entries, and a least-first comparator
+          auto desc = [](const auto &x, const auto &y) { return x.second != y.second ? x.second > y.second : x.first < y.first; };
+          auto asc  = [](const auto &x, const auto &y) { return x.second != y.second ? x.second < y.second : x.first < y.first; };
+          auto dump = [&](const char *name, const auto &v) {
+            std::string t = q + name + " :";
+            for (auto &kv : v) t += " " + std::to_string(kv.first) + "=" + std::to_string(kv.second);
+            line(t);
+          };
+          dump("C.topk50", C.topk(50, desc));
+          dump("C.topk4a", C.topk(4, asc));
+          dump("M.topk50", M.topk(50, desc));
+          dump("M.topk3a", M.topk(3, asc));
+        }
+        {
+          // array: both forms of for_all present every element once (global index form: index and value; value-only form)
+          long vc = 0, vs = 0, ic = 0, is = 0, ix = 0;
+          A.for_all([&](long &v) { vc += 1; vs += v; });
+          A.for_all([&](const size_t i, long &v) { ic += 1; is += v; ix += (long)i; });
+          line(q + "A.for_all : " + std::to_string(vc) + " " + std::to_string(vs) + " " + std::to_string(ic) + " " + std::to_string(is) + " " + std::to_string(ix));
+        }
         long fa = 0, fx = 0;
         M.for_all([&](const long &k, long &v) { fa += 1; });
         C.for_all([&](const long &k, size_t &v) { fx += (long)v; });
@@ -288,6 +309,23 @@ int main(int argc, char **argv) {
       line(s);
       line("W " + std::to_string(me) + " AFTER : " + std::to_string(S4.size()) + " " + std::to_string(T4.size()));
       world.cf_barrier();
+      {
+        // iterative use: the callback inserts smaller keys into the set being consumed (chains l*C+c -> (l-1)*C+c)
+        set<long>            S6(world);
+        const long           CH = 24, LV = 5;
+        std::map<long, long> handed;
+        for (long c = me; c < CH; c += R) S6.async_insert((LV - 1) * CH + c);
+        int rounds = 0;
+        while (S6.size() > 0 && rounds < 40) {
+          S6.consume_all([&](const long &k) { handed[k]++; if (k >= CH) S6.async_insert(k - CH); });
+          ++rounds;
+        }
+        s = "W " + std::to_string(me) + " S6C :";
+        for (auto &kv : handed) s += " " + std::to_string(kv.first) + "=" + std::to_string(kv.second);
+        line(s);
+        line("W " + std::to_string(me) + " S6AFTER : " + std::to_string(S6.size()) + " " + std::to_string(rounds));
+        world.cf_barrier();
+      }
     }
     // ---- counting_set (C15): long runs of one key inside one epoch (the cached count must not wrap or saturate silently) ----
     {
